@@ -17,7 +17,12 @@ class CapturedPath:
         "Captured path cannot be computed\n"+
         "Line is not connected to a GFA instance\n"+
         "Line: {}".format(self))
-    return self._compute_captured_path()[0]
+    try:
+      return self._compute_captured_path()[0]
+    except RecursionError as err:
+      raise gfapy.RuntimeError(
+        "Captured path cannot be computed\n"+
+        "The nesting of the groups is too deep") from err
 
   def _compute_captured_path(self, visiting = ()):
     # visiting: the groups whose captured path is being computed
